@@ -39,6 +39,29 @@ def r3_skip_closed(ctx):
            path=None if ok else render_path(g, p))
 
 
+def r3b_open_entry_is_returned(ctx):
+    """an entry that is still open is what get_idle_session returns: nothing but `closed` makes it discard a pooled session
+    (the reaper, not the reuse path, decides about age — it keeps the idle minimum beyond idle_timeout on purpose)"""
+    g = co(ctx, "R13.3", POOL + "get_idle_session")
+    if g is None:
+        return
+    cfg, conds = ctx.cfg(g), ctx.conds(g)
+    scan = calls_norm(g, "BTreeMap::last_key_value", "BTreeMap::first_key_value", "BTreeMap::pop_last", "BTreeMap::pop_first", "BTreeMap::last_entry", "BTreeMap::first_entry")
+    fe = []
+    for c in conds.all():
+        if c.kind == "bool" and is_call_term(c.term, "Session::is_closed"):
+            fe += c.edges_for(False)
+    if not scan or not fe:
+        return      # r3_skip_closed reports the missing anchors
+    back = cfg.reach([e[1] for e in fe]) & {c.bb for c in scan}
+    nones = [bi for kind, bi, si, rv in g.defs().get(0, []) if kind == "assign" and rv["r"] == "aggregate" and rv["kind"].get("variant") == "None"]
+    none_after = cfg.reach([e[1] for e in fe]) & set(nones)
+    ok = not back and not none_after
+    ctx.ob("R13.3", "get_idle_session:open-entry-is-returned", ok, scan[0].site, "once an entry is found open, every path returns it" if ok else
+           "an entry that is open can still be discarded (control goes back to the scan / returns None after the is_closed()==false edge): the session the reaper deliberately kept as idle minimum is dropped "
+           "from the map unclosed at the moment it is needed, and the request dials a new TLS connection")
+
+
 def r4_pool_keys(ctx):
     """every pooled session has its own key: create_new_session gives each session a fresh sequence number before pooling it,
     and the pool keys entries by that number"""
@@ -79,6 +102,26 @@ def r4_pool_keys(ctx):
 REQUEST_PATH = ("client::client::", "client::socks5::", "client::http_proxy::", "client::udp_client::")
 
 
+def r6_dialled_session_is_pooled(ctx):
+    """a freshly dialled session enters the idle map before anything about its first request can fail"""
+    body = co(ctx, "R13.6", CL + "create_new_session")
+    if body is None:
+        return
+    cfg = ctx.cfg(body)
+    add = calls_norm(body, "SessionPool::add_idle_session")
+    ok_rets = [bi for kind, bi, si, rv in body.defs().get(0, []) if kind == "assign" and rv["r"] == "aggregate" and rv["kind"].get("variant") == "Ok"]
+    if not ok_rets:
+        ctx.missing("R13.6", "Ok return of create_new_session")
+        return
+    if not add:
+        ctx.ob("R13.6", "create_new_session:pools-what-it-dialled", False, "", "create_new_session returns a session without putting it into the idle map: when the first request on it fails for a reason that has "
+               "nothing to do with the session (destination refused, SYNACK timeout, name too long) the healthy session stays open but unreachable and the next request dials again")
+        return
+    ok, p = cfg.must_pass([0], ok_rets, via_blocks=[a.bb for a in add])
+    ctx.ob("R13.6", "create_new_session:pools-what-it-dialled", ok, add[0].site, "every successful return of create_new_session has passed add_idle_session" if ok else
+           "create_new_session can succeed without pooling the session", path=None if ok else render_path(body, p))
+
+
 def r5_request_path_never_closes(ctx):
     """a failed request gives up its stream, not the session it ran on"""
     n = 0
@@ -115,10 +158,12 @@ def run(ctx):
         elif not none_e:
             ctx.missing("R13.1", "match on get_idle_session in create_stream")
     r3_skip_closed(ctx)
+    r3b_open_entry_is_returned(ctx)
+    r6_dialled_session_is_pooled(ctx)
     r4_pool_keys(ctx)
     r5_request_path_never_closes(ctx)
     from . import C12
-    C12.r2_to_r6_reapers(ctx, only=("R12.2", "R12.3"))    # the idle minimum keeps *live* sessions: a reaper that counts dead ones closes the healthy session behind them
+    C12.r2_to_r6_reapers(ctx, only=("R12.2", "R12.3", "R12.5"))    # the idle minimum keeps *live* sessions: a reaper that counts dead ones closes the healthy session behind them
     # R13.2: who re-inserts
     callers = [e for e in ctx.cg.callers("client::session_pool::SessionPool::add_idle_session") if e.kind in ("call", "spawn")]
     owners = sorted({e.src.split("::{closure")[0] for e in callers})
